@@ -228,3 +228,154 @@ Theorem seg_monotone L i i' : 0 <= L < 64 -> 0 <= i < i' -> i' < 2 ^ 64 - 2 ^ L 
 Proof.
   intros HL Hi Hi'. rewrite !gen_seg_of by lia. apply seg_of_mono; lia.
 Qed.
+
+(* ------------------------------------------------------------------ the exact boundary of the claims (round 2)
+   The only 64-bit wrap inside GetSegItemIndexes / GetIndex is index1 = (index >> L) + 1, i.e. L = 0 and
+   index = 2^64 - 1.  Everything else, including the top 2^L indexes for L >= 1, is computed exactly. *)
+Definition ok_index (L i : Z) : Prop := 0 <= i < 2 ^ 64 /\ (L = 0 -> i < 2 ^ 64 - 1).
+
+Lemma ok_index1 L i : 0 <= L < 64 -> ok_index L i -> 1 <= i / 2 ^ L + 1 < 2 ^ 64.
+Proof.
+  intros HL [Hi H0]. pose proof (SegMath.pow2_pos L ltac:(lia)) as HB.
+  assert (0 <= i / 2 ^ L) by (apply Z.div_pos; lia).
+  destruct (Z.eq_dec L 0) as [->|Hne].
+  - rewrite Z.pow_0_r, Z.div_1_r. specialize (H0 eq_refl). lia.
+  - assert (2 <= 2 ^ L) by (change 2 with (2 ^ 1) at 1; apply Z.pow_le_mono_r; lia).
+    assert (i / 2 ^ L < 2 ^ 63) by (apply Z.div_lt_upper_bound; [lia|]; change (2 ^ 64) with (2 * 2 ^ 63) in Hi; nia).
+    rewrite pow2_64. change (2 ^ 63) with 9223372036854775808 in *. lia.
+Qed.
+
+Lemma gen_seg_of_all L i : 0 <= L < 64 -> ok_index L i -> G.GetSegItemIndexes L i = seg_of L i.
+Proof.
+  intros HL Hok. pose proof (ok_index1 L i HL Hok) as Hn. destruct Hok as [Hi _]. set (n := i / 2 ^ L + 1) in *.
+  pose proof (SegMath.pow2_pos L ltac:(lia)) as HB.
+  unfold G.GetSegItemIndexes, seg_of. cbv zeta.
+  rewrite !(mask L) by lia. rewrite !(Z.shiftr_div_pow2 i L) by lia.
+  rewrite (wrapU_small 64 (i / 2 ^ L + 1)) by (fold n; lia). fold n.
+  rewrite gen_klog by lia.
+  destruct (klog_quot n ltac:(lia)) as (HP & Hd & Hr & Hq & Hb). destruct (klog_spec n ltac:(lia)) as [Hk _].
+  pose proof (klog_le n 64 Hn ltac:(lia)) as Hk2.
+  assert (Hk64 : 0 <= klog n < 64) by lia.
+  rewrite !mask by lia. rewrite shl1 by lia. rewrite Z.shiftr_div_pow2 by lia. rewrite Z.shiftl_mul_pow2 by lia.
+  set (k := klog n) in *. set (P := 2 ^ k) in *. set (q := n / P) in *. set (r := n mod P) in *.
+  pose proof (Z.mod_pos_bound i (2 ^ L) HB) as Hm. pose proof (Z.div_mod i (2 ^ L) ltac:(lia)) as Hdi.
+  assert (En : n - 1 = i / 2 ^ L) by (unfold n; lia).
+  set (b := i mod 2 ^ L) in *. set (B := 2 ^ L) in *.
+  assert (HP32 : P <= 2 ^ 32) by (unfold P; apply Z.pow_le_mono_r; lia).
+  assert (Hitem : r * B + b <= i).
+  { assert (1 <= q) by lia. assert (P <= q * P) by nia. assert (r <= n - 1) by lia.
+    assert (r * B <= (n - 1) * B) by (apply Z.mul_le_mono_nonneg_r; lia). rewrite En in H2. lia. }
+  rewrite pow2_64 in *. change (2 ^ 32) with 4294967296 in *.
+  f_equal.
+  - rewrite (wrapU_small 64 (q + P)) by (rewrite pow2_64; lia). apply wrapU_small. rewrite pow2_64. lia.
+  - rewrite (wrapU_small 64 (r * B)) by (rewrite pow2_64; nia). apply wrapU_small. rewrite pow2_64. nia.
+Qed.
+
+Lemma gen_idx_of_all L s j : 0 <= L < 64 -> 0 <= s -> 0 <= j < cnt_of L s -> ok_index L (idx_of L s j) ->
+  G.GetIndex L s j = idx_of L s j /\ 2 * s + 4 < 2 ^ 64.
+Proof.
+  intros HL Hs Hj Hok. pose proof (ok_index1 L _ HL Hok) as Hn1. destruct Hok as [Hfit _].
+  destruct (slog_spec s Hs) as [Hk Hkb].
+  pose proof (SegMath.pow2_pos L ltac:(lia)) as HB.
+  unfold cnt_of in Hj. rewrite Z.pow_add_r in Hj by lia.
+  unfold idx_of in *. set (k := slog s) in *. set (P := 2 ^ k) in *.
+  assert (HP : 0 < P) by (apply SegMath.pow2_pos; exact Hk).
+  set (t := s + 2 - P) in *. assert (Ht : P <= 2 * t < 4 * P) by (unfold t; lia).
+  pose proof (Z.div_mod j (2 ^ L) ltac:(lia)) as Hd. pose proof (Z.mod_pos_bound j (2 ^ L) HB) as Hm.
+  set (a := j / 2 ^ L) in *. set (b := j mod 2 ^ L) in *. set (B := 2 ^ L) in *.
+  assert (Ha : 0 <= a < P) by nia.
+  set (n := t * P + a) in *. assert (Hn0 : 1 <= n) by (unfold n; nia).
+  assert (Hdiv : ((n - 1) * B + b) / B = n - 1).
+  { rewrite Z.div_add_l by lia. rewrite (Z.div_small b B) by lia. lia. }
+  rewrite Hdiv in Hn1.
+  assert (Hkl : klog n = k) by (apply klog_unique; try lia; fold P; unfold n; nia).
+  pose proof (klog_le n 64 ltac:(lia) ltac:(lia)) as Hk2. rewrite Hkl in Hk2.
+  assert (HP32 : P <= 2 ^ 32) by (unfold P; apply Z.pow_le_mono_r; lia).
+  change (2 ^ 32) with 4294967296 in HP32.
+  assert (Hs64 : 2 * s + 4 < 2 ^ 64) by (rewrite pow2_64; lia).
+  split; [|exact Hs64].
+  unfold G.GetIndex. cbv zeta.
+  rewrite gen_slog by lia. fold k. rewrite !mask by lia. rewrite Z.shiftr_div_pow2 by lia.
+  rewrite shl1 by lia. rewrite !Z.shiftl_mul_pow2 by lia. fold P B a b.
+  rewrite pow2_64 in *.
+  rewrite (wrapU_small 64 (s + 2)) by (rewrite pow2_64; lia).
+  replace (s + 2 - P) with t by reflexivity.
+  rewrite (wrapU_small 64 t) by (rewrite pow2_64; lia).
+  assert (HtP : 0 <= t * P) by (apply Z.mul_nonneg_nonneg; lia).
+  assert (HnB : 0 <= (n - 1) * B) by (apply Z.mul_nonneg_nonneg; lia).
+  rewrite (wrapU_small 64 (t * P)) by (rewrite pow2_64; unfold n in Hn1; lia).
+  rewrite (wrapU_small 64 (t * P + a)) by (rewrite pow2_64; fold n; lia). fold n.
+  rewrite (wrapU_small 64 (n - 1)) by (rewrite pow2_64; lia).
+  rewrite (wrapU_small 64 ((n - 1) * B)) by (rewrite pow2_64; lia).
+  apply wrapU_small. rewrite pow2_64. lia.
+Qed.
+
+(* full-range round trip: every size_t index except (L = 0, index = SIZE_MAX) *)
+Theorem seg_roundtrip_all L i : 0 <= L < 64 -> ok_index L i ->
+  G.GetIndex L (fst (G.GetSegItemIndexes L i)) (snd (G.GetSegItemIndexes L i)) = i.
+Proof.
+  intros HL Hok. rewrite gen_seg_of_all by assumption. pose proof Hok as [Hi _].
+  destruct (seg_of_slog L i ltac:(lia) ltac:(lia)) as [_ Hs].
+  pose proof (item_lt_cnt L ltac:(lia) i ltac:(lia)) as Hj.
+  pose proof (roundtrip L ltac:(lia) i ltac:(lia)) as R.
+  destruct (gen_idx_of_all L _ _ HL Hs Hj) as [E _]; [rewrite R; exact Hok|]. rewrite E. exact R.
+Qed.
+
+(* the shift count of GetItemCount stays below 64 except for L = 63 and index >= 2^63 *)
+Theorem item_lt_count_all L i : 0 <= L < 64 -> ok_index L i -> (L <= 62 \/ i < 2 ^ 63) ->
+  let s := fst (G.GetSegItemIndexes L i) in let j := snd (G.GetSegItemIndexes L i) in
+  0 <= s /\ 0 <= j < G.GetItemCount L s /\ G.GetItemCount L s = 2 ^ (slog s + L) /\ slog s + L < 64.
+Proof.
+  intros HL Hok Hc. rewrite gen_seg_of_all by assumption. cbv zeta. pose proof Hok as [Hi _].
+  pose proof (ok_index1 L i HL Hok) as Hn.
+  destruct (seg_of_slog L i ltac:(lia) ltac:(lia)) as [E Hs0].
+  pose proof (item_lt_cnt L ltac:(lia) i ltac:(lia)) as Hj.
+  pose proof (roundtrip L ltac:(lia) i ltac:(lia)) as R.
+  destruct (gen_idx_of_all L _ _ HL Hs0 Hj) as [_ Hs64]; [rewrite R; exact Hok|].
+  set (s := fst (seg_of L i)) in *. set (n := i / 2 ^ L + 1) in *.
+  assert (Hk : slog s + L < 64).
+  { rewrite E. pose proof (SegMath.pow2_pos L ltac:(lia)) as HB.
+    destruct Hc as [Hc|Hc].
+    - (* n <= 2^(64-L) < 2^(65-L) *)
+      assert (E64 : 2 ^ 64 = 2 ^ (64 - L) * 2 ^ L) by (rewrite <- Z.pow_add_r by lia; f_equal; lia).
+      assert (i / 2 ^ L < 2 ^ (64 - L)) by (apply Z.div_lt_upper_bound; nia).
+      assert (n < 2 ^ (65 - L)).
+      { replace (65 - L) with (64 - L + 1) by lia. rewrite SegMath.pow2_S by lia. unfold n.
+        pose proof (SegMath.pow2_pos (64 - L) ltac:(lia)). lia. }
+      pose proof (klog_le n (65 - L) ltac:(lia) ltac:(lia)). lia.
+    - (* L = 63 allowed: i < 2^63 *)
+      destruct (Z_le_dec L 62) as [Hle|Hgt].
+      + assert (E64 : 2 ^ 64 = 2 ^ (64 - L) * 2 ^ L) by (rewrite <- Z.pow_add_r by lia; f_equal; lia).
+        assert (i / 2 ^ L < 2 ^ (64 - L)) by (apply Z.div_lt_upper_bound; nia).
+        assert (n < 2 ^ (65 - L)).
+        { replace (65 - L) with (64 - L + 1) by lia. rewrite SegMath.pow2_S by lia. unfold n.
+          pose proof (SegMath.pow2_pos (64 - L) ltac:(lia)). lia. }
+        pose proof (klog_le n (65 - L) ltac:(lia) ltac:(lia)). lia.
+      + assert (L = 63) by lia. subst L. assert (i / 2 ^ 63 = 0) by (apply Z.div_small; lia).
+        assert (n = 1) by (unfold n; lia). rewrite H0. change (klog 1) with 0. lia. }
+  rewrite gen_cnt_of by (try assumption; lia).
+  unfold cnt_of at 2. repeat split; lia.
+Qed.
+
+(* L = 0, index = SIZE_MAX: index1 wraps to 0, Log2(0) = 63, and the result aliases the slot of index 2^62 - 1:
+   this single argument is where the index <-> slot bijection stops *)
+Theorem top_L0_aliases :
+  G.GetSegItemIndexes 0 (2 ^ 64 - 1) = (2 ^ 32 - 2, 0) /\ G.GetSegItemIndexes 0 (2 ^ 62 - 1) = (2 ^ 32 - 2, 0) /\
+  G.GetIndex 0 (2 ^ 32 - 2) 0 = 2 ^ 62 - 1.
+Proof. vm_compute. repeat split; reflexivity. Qed.
+
+(* L = 63: the indexes >= 2^63 live in segment 1, whose size would be 2^64: GetItemCount shifts by 64 (undefined
+   behaviour in C++; the generated model wraps to 0) *)
+Theorem top_L63_shift_64 :
+  G.GetSegItemIndexes 63 (2 ^ 63) = (1, 0) /\ G.pvSegIndexToLogItemCount 1 + 63 = 64 /\ G.GetItemCount 63 1 = 0.
+Proof. vm_compute. repeat split; reflexivity. Qed.
+
+Theorem seg_contiguous_all L i : 0 <= L < 64 -> 0 <= i -> ok_index L (i + 1) -> (L <= 62 \/ i < 2 ^ 63) ->
+  let s := fst (G.GetSegItemIndexes L i) in let j := snd (G.GetSegItemIndexes L i) in
+  G.GetSegItemIndexes L (i + 1) = if Z.ltb (j + 1) (G.GetItemCount L s) then (s, j + 1) else (s + 1, 0).
+Proof.
+  intros HL Hi Hok1 Hc. assert (Hok : ok_index L i) by (destruct Hok1 as [H1 H2]; split; [lia|intros E; specialize (H2 E); lia]).
+  pose proof (item_lt_count_all L i HL Hok Hc) as (_ & _ & Ecnt & _). cbv zeta in Ecnt.
+  cbv zeta. rewrite Ecnt. rewrite !gen_seg_of_all by assumption.
+  apply (contiguous L ltac:(lia) i Hi).
+Qed.
